@@ -1,6 +1,6 @@
 (* C03 — PostgreSQL statement sequences are executable and leave the declared schema (interpreted by a
    PostgreSQL catalog model: coq/pg/Model/Engine.v, modelled, not verified).  Pinned statements only. *)
-From VV.PG Require Import WitnessP SimKindsP SimCreateP SimColumnP EnumP RenameColP DefaultP.
+From VV.PG Require Import WitnessP SimKindsP SimCreateP SimColumnP EnumP RenameColP DefaultP RenameTableP DeleteColP PendingP.
 
 (* ---------- the full-strength target (a definition, not a claim) ----------
    for every baseline and every action list whose replay succeeds, executing gen_plan from
@@ -280,6 +280,70 @@ Print Assumptions C03_sim_pg_modify_column_default_plain.
 Check C03_sim_pg_modify_column_default_plain : forall s tn cn x,
   hyp_modify_default_plain s tn cn x = true -> step_sim s (ModifyColumnDefault tn cn (Some x)).
 
+(* RenameTable, for the tables nothing derived from the table name and no foreign key depends on: CHECK constraints
+   only (so no primary key: with one the statement is refuted, C03_pkey_after_rename_refuted), no enum column, no
+   foreign key of any table references it, the new name is free *)
+Theorem C03_sim_pg_rename_table_partial : forall s a b,
+  hyp_rename_table s a b = true -> step_sim s (RenameTable a b).
+Proof. exact sim_pg_rename_table. Qed.
+Print Assumptions C03_sim_pg_rename_table_partial.
+Check C03_sim_pg_rename_table_partial : forall s a b,
+  hyp_rename_table s a b = true -> step_sim s (RenameTable a b).
+
+(* DeleteColumn where a unique / index / foreign key over exactly this column goes with it (PostgreSQL drops the
+   object with the column, apply.rs drops the emptied constraint); every other constraint avoids the column (D18) *)
+Theorem C03_sim_pg_delete_column_goes_partial : forall s tn cn,
+  hyp_delete_column_goes s tn cn = true -> step_sim s (DeleteColumn tn cn).
+Proof. exact sim_pg_delete_column_goes. Qed.
+Print Assumptions C03_sim_pg_delete_column_goes_partial.
+Check C03_sim_pg_delete_column_goes_partial : forall s tn cn,
+  hyp_delete_column_goes s tn cn = true -> step_sim s (DeleteColumn tn cn).
+
+(* ---------- the decidable hypotheses are sound: what the check counts is what the theorems cover ---------- *)
+(* sim_hyp is the disjunction of the hypotheses above, by action kind; no action kind is excluded wholesale *)
+Theorem C03_sim_hyp_sound : forall s a, sim_hyp s a = true -> step_sim s a.
+Proof. exact sim_hyp_sound. Qed.
+Print Assumptions C03_sim_hyp_sound.
+Check C03_sim_hyp_sound : forall s a, sim_hyp s a = true -> step_sim s a.
+
+Theorem C03_Sim_plan_dec : forall acts s n, plan_hyp s acts = true ->
+  exists qs, gen_plan s acts = Ok qs /\ run_actions (catalog_of s) n qs = Ok (catalog_of (final_schema s acts)).
+Proof. exact Sim_plan_dec. Qed.
+Print Assumptions C03_Sim_plan_dec.
+Check C03_Sim_plan_dec : forall acts s n, plan_hyp s acts = true ->
+  exists qs, gen_plan s acts = Ok qs /\ run_actions (catalog_of s) n qs = Ok (catalog_of (final_schema s acts)).
+
+(* ---------- the pending-set invariant ----------
+   apply.rs promotes the inline unique / index / foreign_key / primary_key declaration of an added column to a table
+   constraint at once (AddColumn re-normalises the table); the database receives that constraint only when the later
+   AddConstraint of the plan runs, which is a no-op for the planner's schema.  The database's schema d evolves by
+   the same actions with the added column stripped of its inline declarations (db_step); the pending set is what the
+   planner's schema s has and d has not.  Invariant: the catalog is catalog_of d, for every action kind, as long as
+   s and d have the same tables and columns (same_core) and the step on d falls under a per-step lemma. *)
+Theorem C03_Sim_plan_db : forall acts s d n, all_sim2 s d acts = true ->
+  exists qs, gen_plan s acts = Ok qs /\ run_actions (catalog_of d) n qs = Ok (catalog_of (final_db d acts)).
+Proof. exact Sim_plan_db. Qed.
+Print Assumptions C03_Sim_plan_db.
+Check C03_Sim_plan_db : forall acts s d n, all_sim2 s d acts = true ->
+  exists qs, gen_plan s acts = Ok qs /\ run_actions (catalog_of d) n qs = Ok (catalog_of (final_db d acts)).
+
+(* once the pending set is settled (both schemas describe the same catalog at the end of the plan) the plan takes
+   catalog_of s to catalog_of of the planner's final schema: AddColumn with an inline declaration is no longer
+   excluded by hypothesis *)
+Theorem C03_Sim_plan_pending : forall acts s n, plan_hyp_pending s acts = true ->
+  exists qs, gen_plan s acts = Ok qs /\ run_actions (catalog_of s) n qs = Ok (catalog_of (final_schema s acts)).
+Proof. exact Sim_plan_pending. Qed.
+Print Assumptions C03_Sim_plan_pending.
+Check C03_Sim_plan_pending : forall acts s n, plan_hyp_pending s acts = true ->
+  exists qs, gen_plan s acts = Ok qs /\ run_actions (catalog_of s) n qs = Ok (catalog_of (final_schema s acts)).
+
+Theorem C03_Sim_history_pending : forall h s, history_ok s h = true ->
+  run_history (catalog_of s) s h = Some (catalog_of (fold_left final_schema h s)).
+Proof. exact Sim_history_pending. Qed.
+Print Assumptions C03_Sim_history_pending.
+Check C03_Sim_history_pending : forall h s, history_ok s h = true ->
+  run_history (catalog_of s) s h = Some (catalog_of (fold_left final_schema h s)).
+
 (* ---------- the hypotheses are satisfiable by non-trivial values ---------- *)
 Example ex_modify_comment : hyp_modify_comment w_d2 "post" "user_id" = true.
 Proof. vm_compute. reflexivity. Qed.
@@ -350,6 +414,35 @@ Example ex_modify_default_plain : hyp_modify_default_plain w_d2 "post" "user_id"
   /\ hyp_modify_default_plain w_d2 "post" "user_id" "now()" = false
   /\ hyp_modify_default_plain w_enum_t "t" "s" "on" = true.
 Proof. vm_compute. repeat split. Qed.
+Example ex_rename_table :
+  hyp_rename_table [mkTable "t" None [ncol "a" (TSimple Integer)] [CCheck "c" "a > 0"]] "t" "u" = true
+  /\ hyp_rename_table w_t "t" "u" = false.
+Proof. vm_compute. split; reflexivity. Qed.
+Example ex_delete_column_goes : hyp_delete_column_goes w_ix "t" "a" = true /\ hyp_delete_column w_ix "t" "a" = false
+  /\ hyp_delete_column_goes w_d18 "t" "a" = false.
+Proof. vm_compute. repeat split. Qed.
+Example ex_remove_pk_auto :
+  hyp_remove_pk [mkTable "t" None [mkCol "code" (TSimple Text) false None None None None None None] [CPrimaryKey true ["code"]]]
+                "t" (CPrimaryKey true ["code"]) = true
+  /\ hyp_remove_pk [mkTable "t" None [icol "id"] [CPrimaryKey true ["id"]]] "t" (CPrimaryKey true ["id"]) = false.
+Proof. vm_compute. split; reflexivity. Qed.
+(* the pending set: two columns with inline declarations, their constraints added later in the other order; Sim_plan
+   does not apply (the first step leaves catalog_of of the planner's schema), Sim_plan_pending does; without the
+   AddConstraint the pending set is not settled *)
+Definition w_pending_plan : list action :=
+  [AddColumn "t" (mkCol "a" (TSimple Integer) true None None None None (Some (SBool true)) None) None;
+   AddColumn "t" (mkCol "b" (TSimple Text) true None None None (Some (SBool true)) None None) None;
+   AddConstraint "t" (CUnique None ["b"]);
+   AddConstraint "t" (CIndex None ["a"])].
+Example ex_plan_pending :
+  plan_hyp w_t w_pending_plan = false /\ plan_hyp_pending w_t w_pending_plan = true
+  /\ plan_hyp_pending w_t (firstn 3 w_pending_plan) = false
+  /\ all_sim2 w_t w_t (firstn 3 w_pending_plan) = true.
+Proof. vm_compute. repeat split. Qed.
+Example ex_history_pending :
+  run_history (catalog_of w_t) w_t [w_pending_plan; [DeleteColumn "t" "a"]]
+  = Some (catalog_of (fold_left final_schema [w_pending_plan; [DeleteColumn "t" "a"]] w_t)).
+Proof. apply Sim_history_pending. vm_compute. reflexivity. Qed.
 (* a two-migration history every step of which falls under a proved lemma, hence (C03_Sim_history) runs to catalog_of *)
 Example ex_history :
   run_history (catalog_of w_d2) w_d2
